@@ -14,5 +14,7 @@ PROPERTY = {
 
 
 def check(run):
+    from checks.main import reflection_bounded
+    reflection_bounded(run)
     run.verify_functions(RECOGNIZER + [
         'yatiml/loader.py::Loader.__process_node'])
